@@ -843,6 +843,10 @@ def run(ctx):
     ctx.assumptions = [
         "WF models what onnx.checker enforces for names/scopes (established by the probe set, re-run on every run) plus the "
         "function-call rules only onnxruntime enforces; call arity is EQUALITY (ONNX would allow omitted trailing inputs)",
+        "WF is deliberately STRICTER than both tools in one respect: a nested body may not define a name that any enclosing "
+        "scope defines at ANY position (owner outputs excepted); onnx.checker only looks at names defined before the owner, "
+        "onnxruntime rejects some but not all such models depending on its internal topological order (probes "
+        "loop-body-redefines-later-parent-name vs the three probes listed as deliberately_conservative)",
         "the evaluation semantics of the meta-theorem runs every nested body once per evaluation of its owner with abstract "
         "arguments; operators and function calls are uninterpreted (function bodies are evaluated separately, not inlined)",
         "Names.v covers names produced by fresh_name only (values named by name_hint / jaxpr variables are covered by the "
